@@ -219,10 +219,21 @@ static void qr_case(int m, int n, int kind, int order) {
     vf::nontrivial(vf::hstr(key));
     vf::count(rank == p ? "qr_full_rank_cases" : "qr_rank_deficient_cases");
     std::string desc = vf::KS() << tn << " " << m << "x" << n << " content#" << kind << " rank " << rank << (order ? " col_major" : " row_major");
-    // ---- factorize
-    {
+    // ---- factorize: on a fresh object (hist 0) and on an object that has factorized another matrix before
+    //      (hist 1: same shape, other content; hist 2: a larger shape in the other storage order) -- the library
+    //      reuses one QR object for all aggregates in tentative_prolongation
+    for (int hist = 0; hist < 3; ++hist) {
         std::vector<T> A = A0;
-        detail::QR<T> qr; qr.factorize(m, n, A.data(), ord);
+        detail::QR<T> qr;
+        if (hist) {
+            int hm = hist == 1 ? m : m + 2, hn = hist == 1 ? n : n + 1;
+            std::vector<T> H(hm * hn);
+            for (int i = 0; i < hm; ++i) for (int j = 0; j < hn; ++j) H[(hist == 1 ? idx(i, j) : (order ? i * hn + j : i + j * hm))] = fromint((T*)0, content((kind + 1) % 6, i, j, hm, hn, false) + (i == j ? 3 : 0), qrt<T>::cplx ? content((kind + 2) % 6, i, j, hm, hn, true) : 0);
+            qr.factorize(hm, hn, H.data(), hist == 1 ? ord : (order ? detail::row_major : detail::col_major));
+            vf::count("qr_reuse_cases");
+        }
+        const std::string hs = hist ? ".reused_object" : "";
+        qr.factorize(m, n, A.data(), ord);
         LD err = 0, orth = 0; bool tri = true, fin = true;
         for (int i = 0; i < m; ++i) for (int j = 0; j < n; ++j) {
             CLD s(0, 0); for (int k = 0; k < p; ++k) s += qrt<T>::c(qr.Q(i, k)) * qrt<T>::c(qr.R(k, j));
@@ -232,9 +243,9 @@ static void qr_case(int m, int n, int kind, int order) {
         for (int i = 0; i < p; ++i) for (int j = 0; j < i; ++j) if (!(qr.R(i, j) == math::zero<T>())) tri = false;
         err = std::sqrt(err); orth = std::sqrt(orth);
         LD berr = (1 + std::sqrt((LD)n)) * gt(m * n) * normA * 1.01L, borth = 2.01L * std::sqrt((LD)n) * gt(m * n);
-        if (!fin || !(err <= berr)) vf::fail(std::string("qr.factorization_A_eq_QR[") + tn + "]", key, vf::KS() << desc << ": ||A-QR||_F=" << (double)err << " bound " << (double)berr << " (||A||_F=" << (double)normA << ")");
-        if (!(orth <= borth)) vf::fail(std::string("qr.Q_orthonormal[") + tn + "]", key, vf::KS() << desc << ": ||Q^H Q - I||_F=" << (double)orth << " bound " << (double)borth);
-        if (!tri) vf::fail(std::string("qr.R_upper_triangular[") + tn + "]", key, desc);
+        if (!fin || !(err <= berr)) vf::fail(std::string("qr.factorization_A_eq_QR") + hs + "[" + tn + "]", key, vf::KS() << desc << ": ||A-QR||_F=" << (double)err << " bound " << (double)berr << " (||A||_F=" << (double)normA << ")");
+        if (!(orth <= borth)) vf::fail(std::string("qr.Q_orthonormal") + hs + "[" + tn + "]", key, vf::KS() << desc << ": ||Q^H Q - I||_F=" << (double)orth << " bound " << (double)borth);
+        if (!tri) vf::fail(std::string("qr.R_upper_triangular") + hs + "[" + tn + "]", key, desc);
     }
     // ---- solve (full rank only)
     if (rank == p) {
